@@ -21,202 +21,196 @@ CONTENT_CHANGING = re.compile(r"::(to_(ascii_)?(lower|upper)case|make_ascii_(low
 def run(ctx):
     facts = ctx.facts
     roles.bind(facts)
-    # ---- C02.1 method tables
+    import parser_rules as PRS, framing_rules as FRM, inline, absint
+    import queue_rules as Q
+    PM = PRS.pmodel(facts)
+    FM = FRM.fmodel(facts)
+    # ---- C02.1 method tables (evaluated token by token, both directions)
     mfs = method(facts, T_FROMSTR, METHOD, "from_str")
     mas = roles.inherent(facts, METHOD, "as_str")
     ctx.touch(mfs); ctx.touch(mas)
-    tbl = shared.str_match_table(mfs)
     fwd = {}
-    for lit, tb, fb, cb in tbl:
-        outs = shared.eval_from(mfs, tb)
+    for tok in list(METHODS) + ["get", "FOO", "GETX"]:
+        g, ps = PRS.eval_str_fn(facts, mfs.id, tok)
         vs = set()
-        for p, st in outs:
-            v = st.read_key((0,))
-            if v[0] == "agg" and v[2] == "Ok" and v[3]["0"][0] == "agg":
-                vs.add(v[3]["0"][2])
-        fwd[lit] = vs
-    ok = fwd == {k: {v} for k, v in METHODS.items()}
+        for p in ps:
+            v = PRS.unwrap_ok(p.ret())
+            if v is None:
+                vs.add("ERR")
+            elif v[0] == "agg" and v[1] == METHOD:
+                if v[3]:
+                    d = absint.deep(p.state, v)
+                    keeps = absint.contains(d, PRS.INPUT) and not any(x and x[0] == "call" and CONTENT_CHANGING.search(x[1]) for x in absint.walk_terms(d))
+                    vs.add(v[2] + ("(token)" if keeps else "(?)"))
+                else:
+                    vs.add(v[2])
+            else:
+                vs.add("?")
+        fwd[tok] = vs
+    want = {k: {v} for k, v in METHODS.items()}
+    ok = all(fwd.get(k) == v for k, v in want.items())
     ctx.ob("C02.1", "%s|literal-to-variant" % mfs.id, "the nine standard method tokens map to their variants (case-sensitively)", ok, "%s:%d" % (mfs.file, mfs.line), None if ok else str(fwd))
-    sw = None
-    for bb in sorted(mas.live_blocks()):
-        s2 = switch_on_discr(mas, bb)
-        if s2 and s2[0].get("adt") == METHOD:
-            sw = s2
-            break
-    ctx.require(sw is not None, "C02.1: as_str does not match on the method")
-    rv, m, otherwise, rest = sw
+    ext = [fwd.get(k) for k in ("get", "FOO", "GETX")]
+    ext = [v - {"ERR"} if v else v for v in ext]      # (a token that is not ASCII is an error)
+    ok = all(v is not None and len(v) == 1 and list(v)[0].endswith("(token)") and list(v)[0].split("(")[0] not in METHODS.values() for v in ext)
+    ctx.ob("C02.1", "%s|extension-token-kept" % mfs.id, "any other token (including a standard name in another letter case) is kept verbatim as the non-standard variant", ok, "%s:%d" % (mfs.file, mfs.line), str(ext))
     back = {}
-    for v, tgt in m.items():
-        outs = shared.eval_from(mas, tgt)
-        for p, st in outs:
-            val = st.read_key((0,))
-            while val[0] == "ref":
-                val = st.read_key(val[1])
-            back[v] = val[1] if val[0] == "const" else symex.sym_str(val)
+    ga = inline.inlined(facts, mas.id, stop=lambda d: facts.fns[d].rec.get("local") and facts.fns[d].file != mas.file, extern_ok=Q.std_small)
+    variants = [v for v in facts.adt(METHOD)["variants"]]
+    for v in variants:
+        st = symex.Sym(ga)
+        payload = {x["name"]: ("sym", "stored-token") for x in v["fields"]}
+        st.write_key((1, "*"), ("agg", METHOD, v["name"], payload))
+        for p in absint.explore(ga, 0, st):
+            if p.end[0] != "return":
+                continue
+            val = absint.deep(p.state, p.ret())
+            lit = PRS.const_str(val)
+            back[v["name"]] = lit if lit is not None else ("stored-token" if absint.contains(val, ("sym", "stored-token")) and not any(x and x[0] == "call" and CONTENT_CHANGING.search(x[1]) for x in absint.walk_terms(val)) else symex.sym_str(val)[:40])
     ok = all(back.get(v) == k for k, v in METHODS.items())
     ctx.ob("C02.1", "%s|variant-to-literal" % mas.id, "as_str maps each variant back to the same token (the two tables are mutually inverse)", ok, "%s:%d" % (mas.file, mas.line), None if ok else str(back))
-    # fallback: NonStandard(token itself)
-    falses = {fb for _, tb, fb, cb in tbl}
-    cmpb = {cb for _, tb, fb, cb in tbl}
-    default = [fb for fb in falses if fb not in cmpb]
-    ctx.require(len(default) == 1, "C02.1: fallback arm of Method::from_str")
-    ns = [(bb, s) for g, bb, s in facts.constructions(METHOD, "NonStandard") if g.id == mfs.id]
-    ok = len(ns) == 1 and ns[0][0] in mfs.reach(default, unwind=False)
-    if ok:
-        o = mfs.origin(ns[0][1]["rhs"]["ops"][0])
-        ok = origin_has_call(o, r"ascii::AsciiString::from_ascii$") and any(x == ("arg", 1) for x in origin_walk(o)) and not any(CONTENT_CHANGING.search(x[1]) for x in origin_calls(o))
-    ctx.ob("C02.1", "%s|extension-token-kept" % mfs.id, "any other token is kept verbatim as NonStandard(token)", ok, "%s:%d" % (mfs.file, mfs.line))
-    nst = m.get("NonStandard", otherwise if "NonStandard" in rest else None)
-    okn = False
-    if nst is not None:
-        for b2 in sorted(shared.arm_region(mas, nst)):
-            t2 = mas.term(b2)
-            if t2["t"] == "call" and any(x[0] == "downcast" and x[2] == "NonStandard" for a in t2["args"] for x in origin_walk(mas.origin(a))):
-                if not CONTENT_CHANGING.search(call_name(t2)):
-                    okn = True
-    ctx.ob("C02.1", "%s|extension-token-returned" % mas.id, "as_str returns the stored token for NonStandard", okn, "%s:%d" % (mas.file, mas.line))
+    nonstd = [v["name"] for v in variants if v["fields"]]
+    ctx.ob("C02.1", "%s|extension-token-returned" % mas.id, "as_str returns the stored token for the non-standard variant", bool(nonstd) and all(back.get(n) == "stored-token" for n in nonstd), "%s:%d" % (mas.file, mas.line), str({n: back.get(n) for n in nonstd}))
 
     # ---- C02.2 version table
-    phv = facts.fn("client::parse_http_version")
+    phv = PRS.version_parser(facts)
     ctx.touch(phv)
-    vt = shared.str_match_table(phv)
-    okall = True
     seen = {}
-    for lit, tb, fb, cb in vt:
-        outs = shared.eval_from(phv, tb)
-        for p, st in outs:
-            v = st.read_key((0,))
-            tup = None
-            if v[0] == "agg" and v[2] == "Ok" and v[3]["0"][0] == "agg" and v[3]["0"][1] == HV:
-                tup = tuple(x[1] for x in v[3]["0"][3].values())
-            seen[lit] = tup
-            mm = re.match(r"^HTTP/(\d+)\.(\d+)$", lit)
+    okall = True
+    for tok in ("HTTP/0.9", "HTTP/1.0", "HTTP/1.1", "HTTP/1.2", "HTTP/2.0", "HTTP/3.0", "HTTP/10.1", "http/1.1", "HTTP/1.1 ", "FOO", ""):
+        g, ps = PRS.eval_str_fn(facts, phv.id, tok)
+        for p in ps:
+            v = PRS.unwrap_ok(p.ret())
+            if v is None:
+                continue
+            tup = PRS.version_const(v)
+            seen[tok] = tup
+            mm = re.match(r"^HTTP/(\d+)\.(\d+)$", tok)
             if not mm or tup != (int(mm.group(1)), int(mm.group(2))):
                 okall = False
-    ctx.ob("C02.2", "%s|literal-digits-agree" % phv.id, "every recognised `HTTP/x.y` token yields the version (x, y)", okall and bool(seen), "%s:%d" % (phv.file, phv.line), str(seen))
+    ctx.ob("C02.2", "%s|literal-digits-agree" % phv.id, "every token the version parser accepts is `HTTP/x.y` and yields the version (x, y)", okall and bool(seen), "%s:%d" % (phv.file, phv.line), str(seen))
     ctx.ob("C02.2", "%s|has-1.0-and-1.1" % phv.id, "HTTP/1.0 and HTTP/1.1 are recognised", {"HTTP/1.0", "HTTP/1.1"} <= set(seen), "%s:%d" % (phv.file, phv.line))
 
-    # ---- C02.3 header loop
-    f = cc_read = roles.inherent(facts, CC, "read")
-    rnl = roles.inherent(facts, CC, "read_next_line")
-    ctx.touch(f)
-    rn = [bb for bb, t in f.calls() if call_is(t, rnl.id)]
-    loop_rn = [b for b in rn if f.in_loop(b)]
-    ctx.require(len(loop_rn) == 1, "C02.3: header loop not found")
-    lb = loop_rn[0]
-    pushes = [bb for bb, t in f.calls() if call_matches(t, r"Vec::<T(, A)?>::push$") and "common::Header" in (t.get("res_name") or "")]
-    rs = shared.result_switch(f, lb)
-    ctx.require(rs and rs.get("ok") is not None, "C02.3: result of read_next_line not branched on")
-    # empty-line test
-    emp = [(bb, t) for bb, t in f.calls() if call_matches(t, r"is_empty$") and bb in f.reach([rs["ok"]], blocked={lb}, unwind=False)]
-    ctx.ob("C02.3", "%s|empty-line-ends-head" % f.id, "the head ends at the first empty line", len(emp) >= 1, f.loc(lb))
-    if emp:
-        bs = bool_switch(f, emp[0][1]["target"])
-        cont = bs[2]
-        reach = f.reach([cont], blocked=set(pushes), unwind=False)
-        ok = lb not in reach
-        ctx.paths += 1
-        ctx.ob("C02.3", "%s|every-line-pushed" % f.id, "every non-empty header line that parses is appended before the next line is read (none is skipped)", ok and bool(pushes), f.loc(cont))
-        # what is pushed is the parsed header of this very line
-        for pb in pushes:
-            o = f.origin(f.term(pb)["args"][1])
-            okp = origin_has_call(o, r"common::Header as std::str::FromStr>::from_str$|FromStr::from_str$")
-            ctx.ob("C02.3", "%s|pushes-parsed-line" % f.id, "what is appended is the header parsed from that line", okp, f.loc(pb), origin_str(o)[:120])
-        # the break edge leaves the loop with the vector intact: no other mutator of the headers vector
-        hv = op_local(f.term(pushes[0])["args"][0]) if pushes else None
-        vec_local = None
-        if hv is not None:
-            d = f.single_def(hv)
-            if d and d[0] == "assign" and d[3]["rv"] == "ref":
-                vec_local = d[3]["pl"]["l"]
-        muts = []
-        if vec_local is not None:
-            for u in f.uses().get(vec_local, []):
-                if u[0] == "stmt" and u[4] == "refmut":
-                    dl = u[3]["lhs"]["l"]
-                    for u2 in f.uses().get(dl, []):
-                        if u2[0] == "term" and u2[2]["t"] == "call":
-                            muts.append(short(call_name(u2[2])))
-        ok = vec_local is not None and all(m_.endswith("::push") for m_ in muts) and bool(muts)
-        ctx.ob("C02.3", "%s|append-only" % f.id, "the header list is only ever appended to (order = arrival order, duplicates kept)", ok, f.loc(lb), str(muts))
+    # ---- C02.3 header loop: every non-empty line that parses is appended (once, in order) before the next line is read
+    rd = PM.rd
+    ctx.touch(rd)
+    lines = PM.line_calls()
+    first = [b for b in lines if all(rd.dominates(b, x, unwind=False) for x in lines)]
+    loop_lines = [b for b in lines if b not in first]
+    ctx.ob("C02.3", "%s|reads-header-lines" % PM.read_def, "after the request line the head reader reads further lines", bool(loop_lines), "%s:%d" % (rd.file, rd.line))
+    LINE = ("sym", "a-header-line")
+    nrc = [bb for bb, t in rd.calls() if call_matches(t, r"^request::new_request$")]
+    bad_skip, bad_mut, bad_end, n_ok = [], [], [], 0
+    for b in loop_lines:
+        ic = rd.blocks[b]["inl_call"]
+        st = symex.Sym(rd)
+        st.write_key(pl_key(ic["dest"]), PRS.Ok_(LINE))
+        ps = absint.Explorer(rd, stop_blocks=set(lines), stop=lambda bb, t, s: "built" if bb in nrc else None, max_paths=4000, deep_events=True).run(ic["target"], st)
+        ctx.paths += len(ps)
+        for p in ps:
+            if p.end[0] in PRS.DEAD:
+                continue
+            parsed = [e for e in p.calls() if rd.local_ty(rd.term(e[0])["dest"]["l"]).startswith("std::result::Result<common::Header,") and any(absint.contains(a, LINE) for a in (e[8] or e[3]))]
+            parse_ok = any(c and c[0] == "variant" and c[2] in ("Ok", "Continue") and parsed and absint.mentions_call(c[3], parsed[0][4]) for bb, c in p.conds)
+            pushes = [e for e in p.calls() if re.search(r"Vec::<T(, A)?>::push$", e[2]) and "common::Header" in (e[7] or "")]
+            muts = [short(e[2]) for e in p.calls() if re.search(r"Vec::<T(, A)?>::(insert|remove|swap_remove|retain|clear|truncate|pop|dedup\w*|sort\w*|reverse|drain)$", e[2]) and "common::Header" in (e[7] or "")]
+            if muts:
+                bad_mut.append(muts)
+            empties = [c[2] for bb, c in p.conds if c and c[0] == "scalar" and isinstance(c[2], bool) and c[1][0] == "call" and c[1][1].endswith("is_empty") and absint.contains(c[1], LINE)]
+            goes_on = p.end[0] == "stop" and p.end[2] == "block"
+            leaves = p.end[0] == "stop" and p.end[2] == "built"
+            if goes_on:
+                if not (parsed and parse_ok and len(pushes) == 1 and any(absint.mentions_call(a, parsed[0][4]) for a in (pushes[0][8] or pushes[0][3]))):
+                    bad_skip.append("next line read after %d pushes (parsed=%s)" % (len(pushes), bool(parsed and parse_ok)))
+                else:
+                    n_ok += 1
+                if True in empties:
+                    bad_end.append("reads on after the empty line")
+            if leaves and True not in empties:
+                bad_end.append("leaves the header loop although the line was not empty")
+    ctx.ob("C02.3", "%s|every-line-pushed" % PM.read_def, "every non-empty header line that parses is appended exactly once, as parsed, before the next line is read (none is skipped, dropped or duplicated)",
+           n_ok > 0 and not bad_skip, "%s:%d" % (rd.file, rd.line), None if not bad_skip else str(bad_skip[:3]))
+    ctx.ob("C02.3", "%s|append-only" % PM.read_def, "the header list is only ever appended to (order = arrival order, duplicates kept)", not bad_mut, "%s:%d" % (rd.file, rd.line), None if not bad_mut else str(bad_mut[:3]))
+    ctx.ob("C02.3", "%s|empty-line-ends-head" % PM.read_def, "the head ends exactly at the first empty line", not bad_end, "%s:%d" % (rd.file, rd.line), None if not bad_end else str(bad_end[:3]))
 
-    # ---- C02.4 / C02.5 provenance into the Request and out of the accessors
-    nr = facts.fn("request::new_request")
-    nrc = [(bb, t) for bb, t in f.calls() if call_matches(t, r"^request::new_request$")]
-    ctx.require(len(nrc) == 1, "C02.4: new_request call")
-    bb, t = nrc[0]
-    prl = facts.fn("client::parse_request_line")
-    roles_of_args = {1: "method", 2: "path", 3: "version", 4: "headers"}
-    for idx, what in roles_of_args.items():
-        o = f.origin(t["args"][idx])
-        calls = [x[1] for x in origin_calls(o)]
-        bad = [c for c in calls if CONTENT_CHANGING.search(c)]
-        if what == "headers":
-            ok = any(x[0] == "local" for x in origin_walk(o)) or origin_has_call(o, r"Vec::<T>::new$")
-        else:
-            ok = origin_has_call(o, r"client::parse_request_line$")
-        ctx.ob("C02.4", "%s|%s-from-parser" % (f.id, what), "the %s given to the Request is the parser's result" % what, ok and not bad, f.loc(bb), origin_str(o)[:140])
+    # ---- C02.4 / C02.5 provenance: request line -> new_request arguments -> Request fields -> accessors
+    ok_args = len(first) == 1 and len(nrc) == 1
+    detail = None
+    if ok_args:
+        b = first[0]
+        ic = rd.blocks[b]["inl_call"]
+        st = symex.Sym(rd)
+        RL = ("sym", "the-request-line")
+        st.write_key(pl_key(ic["dest"]), PRS.Ok_(RL))
+        ps = [p for p in absint.Explorer(rd, stop=lambda bb, t, s: "built" if bb in nrc else None, max_paths=20000, max_visits=2, deep_events=True).run(ic["target"], st) if p.end[0] == "stop"]
+        ctx.paths += len(ps)
+        tnr = rd.term(nrc[0])
+        tys = tnr.get("arg_tys") or []
+        idx = {"method": [i for i, x in enumerate(tys) if x == METHOD], "path": [i for i, x in enumerate(tys) if x == "std::string::String"], "version": [i for i, x in enumerate(tys) if x == HV]}
+        ok_args = bool(ps) and all(len(v) == 1 for v in idx.values())
+        bad = []
+        for p in ps[:400]:
+            args = [absint.deep(p.state, p.state.operand(a)) for a in tnr["args"]]
+            nexts = []
+            for what in ("method", "path", "version"):
+                if not idx[what]:
+                    continue
+                a = args[idx[what][0]]
+                calls = absint.calls_in(a)
+                if what != "version" and not absint.contains(a, RL):
+                    bad.append("%s does not come from the request line" % what)
+                if any(CONTENT_CHANGING.search(x[1]) for x in calls):
+                    bad.append("%s goes through %s" % (what, [short(x[1]) for x in calls if CONTENT_CHANGING.search(x[1])]))
+                nx = [x for x in calls if re.search(r"Split\w*<.*> as std::iter::Iterator>::next$|SplitWhitespace.*::next$", x[1] + " " + (x[4] if len(x) > 4 else ""))]
+                nexts.append((what, tuple((x[3], x[5] if len(x) > 5 else 1) for x in nx)))
+                sp = [x for x in calls if re.search(r"<impl str>::split(::<|$)|<impl str>::splitn(::<|$)", x[1])]
+                if sp and not any(y and y[0] == "const" and (y[1] == " " or (isinstance(y[2], str) and y[2] == "' '")) for s_ in sp for y in absint.walk_terms(s_)):
+                    bad.append("the request line is not split on single spaces")
+            # field order: the i-th field is the i-th `next()` of the split
+            order = [(e[0], e[4][5] if len(e[4]) > 5 else 1) for e in p.calls() if re.search(r"Split\w*<.*> as std::iter::Iterator>::next$", e[2] + " " + (e[7] or ""))]
+            for k, (what, nx) in enumerate(nexts):
+                if nx and order and (len(order) <= k or nx[0] != order[k]):
+                    bad.append("%s is not field #%d of the request line" % (what, k + 1))
+        detail = str(sorted(set(bad))[:4]) if bad else None
+        ok_args = ok_args and not bad
+    ctx.ob("C02.4", "%s|request-line-fields-to-request" % PM.read_def, "method, target and version handed to new_request are the first, second and third space-separated field of the request line, "
+           "unchanged (no case mapping, decoding, replacing, trimming of characters ...)", ok_args, "%s:%d" % (rd.file, rd.line), detail)
+    # headers: what is handed to new_request is the vector the loop appended to
     # inside new_request: parameters -> fields
-    cons = [(g, b2, s) for g, b2, s in facts.constructions(REQ) if g.id == nr.id]
-    fld_to_param = {"method": 2, "path": 3, "http_version": 4, "headers": 5, "remote_addr": 6, "secure": 1}
-    for g, b2, s in cons:
-        r = s["rhs"]
-        for fld, pidx in fld_to_param.items():
-            o = g.origin(r["ops"][r["fields"].index(fld)])
-            ok = o == ("arg", pidx)
-            ctx.ob("C02.4", "%s|field-%s" % (g.id, fld), "Request.%s is exactly the value handed to new_request" % fld, ok, g.loc(b2), origin_str(o))
-    # accessors
-    acc = {"method": "method", "url": "path", "http_version": "http_version", "headers": "headers", "body_length": "body_length", "remote_addr": "remote_addr", "secure": "secure"}
-    for name, fld in acc.items():
-        a = roles.inherent(facts, REQ, name)
-        o = a.origin_place({"l": 0, "p": []})
-        calls = [x[1] for x in origin_calls(o)]
-        ok = origin_fields(o) == {fld} and not any(CONTENT_CHANGING.search(c) for c in calls) and all(re.search(r"(deref|as_ref|as_str|as_slice|borrow)$", c) for c in calls)
-        ctx.ob("C02.4", "%s|returns-field" % a.id, "%s() returns the stored %s unchanged" % (name, fld), ok, "%s:%d" % (a.file, a.line), origin_str(o))
-    # parse_request_line: the pieces come from a split on ' ' in order, no transformation
-    g = prl
-    sp = [(b2, t2) for b2, t2 in g.calls() if call_matches(t2, r"<impl str>::split(::<|$)")]
-    ok = len(sp) == 1 and arg_consts(g, sp[0][1])[1] == ("char", " ")
-    ctx.ob("C02.5", "%s|split-on-space" % g.id, "the request line is split on single spaces", ok, "%s:%d" % (g.file, g.line))
-    nexts = [b2 for b2, t2 in g.calls() if call_matches(t2, r"Split<.*> as std::iter::Iterator>::next$")]
-    ctx.ob("C02.5", "%s|three-fields-in-order" % g.id, "method, target and version are the first three fields, in that order", len(nexts) == 3, "%s:%d" % (g.file, g.line))
-    heads = [g, cc_read, rnl, nr] + facts.find_fns(r"^client::parse_request_line::\{closure") + facts.find_fns(r"^<common::Header as std::str::FromStr>::from_str") + [mfs]
+    nr = FM.nr
+    ftypes = {x["name"]: x["ty"] for x in facts.adt(REQ)["variants"][0]["fields"]}
+    ptypes = {i: nr.locals[i]["ty"] for i in range(1, nr.argc + 1)}
+    oks = [r for r in FM.rows if r["kind"] == "ok"]
+    for fld, fty in sorted(ftypes.items()):
+        cands = [i for i, t in ptypes.items() if t == fty]
+        if len(cands) != 1 or fty in ("bool",) and len([1 for t in ftypes.values() if t == "bool"]) > 1:
+            continue
+        vals = {repr(r["request"].get(fld)) for r in oks}
+        ok = vals == {repr(("init", (cands[0],)))}
+        ctx.ob("C02.4", "%s|field-%s" % (FM.nr0.id, fld), "Request.%s is exactly the value handed to new_request" % fld, ok, "%s:%d" % (FM.nr0.file, FM.nr0.line), None if ok else str(sorted(vals))[:160])
+    # accessors return the stored fields
+    import request_rules as RR
+    RM = RR.rmodel(facts)
+    n_acc = 0
+    for name, g in sorted(RM.methods.items()):
+        if not g.rec.get("vis_pub") or g.argc != 1 or not g.local_ty(1).startswith("&request::Request"):
+            continue
+        fg = RM.fn(g)
+        st = symex.Sym(fg)
+        for fld in ftypes:
+            st.write_key((1, "*", "." + fld), ("sym", "field:" + fld))
+        rets = [absint.deep(p.state, p.ret()) for p in absint.explore(fg, 0, st) if p.end[0] == "return"]
+        for r in rets:
+            flds = {x[1][6:] for x in absint.walk_terms(r) if x and x[0] == "sym" and str(x[1]).startswith("field:")}
+            refs = {seg[1:] for x in absint.walk_terms(r) if x and x[0] == "ref" for seg in x[1] if isinstance(seg, str) and seg.startswith(".") and seg[1:] in ftypes}
+            calls = [x[1] for x in absint.calls_in(r)]
+            src = flds | refs
+            if len(src) == 1 and g.local_ty(0) not in ("bool",) or (g.local_ty(0) == "bool" and len(src) == 1):
+                n_acc += 1
+                ok = not any(CONTENT_CHANGING.search(c) for c in calls)
+                ctx.ob("C02.4", "%s|returns-field" % g.id, "%s() returns the stored %s unchanged" % (name, sorted(src)[0]), ok, "%s:%d" % (g.file, g.line), None if ok else str(calls))
+    ctx.floor("C02.4 accessors returning a stored field", n_acc, 5)
     nbad = 0
-    for h in heads:
-        ctx.touch(h)
-        for b2, t2 in h.calls():
-            if CONTENT_CHANGING.search(call_name(t2)) and not call_name(t2).startswith("std::mem::"):
-                # allowed only if the result never reaches a stored field: to_ascii_lowercase feeding `contains`
-                dl = t2["dest"]["l"] if not t2["dest"]["p"] else None
-                sinks_ok = False
-                if dl is not None:
-                    sl = {dl}
-                    work = [dl]
-                    flows = []
-                    while work:
-                        l = work.pop()
-                        for u in h.uses().get(l, []):
-                            if u[0] == "stmt" and not u[3]["lhs"]["p"]:
-                                if u[3]["lhs"]["l"] not in sl:
-                                    sl.add(u[3]["lhs"]["l"]); work.append(u[3]["lhs"]["l"])
-                            elif u[0] == "stmt":
-                                flows.append("field-store")
-                            elif u[0] == "term" and u[2]["t"] == "call":
-                                nm = call_name(u[2])
-                                if re.search(r"(deref|as_str|as_ref)$", nm) and not u[2]["dest"]["p"]:
-                                    if u[2]["dest"]["l"] not in sl:
-                                        sl.add(u[2]["dest"]["l"]); work.append(u[2]["dest"]["l"])
-                                else:
-                                    flows.append(short(nm))
-                            elif u[0] == "term" and u[2]["t"] == "drop":
-                                pass
-                    sinks_ok = bool(flows) and all(re.search(r"contains|starts_with|eq|find|Vec::<T(, A)?>::pop$", x) for x in flows)
-                    if re.search(r"Vec::<T(, A)?>::pop$", call_name(t2)):
-                        sinks_ok = True   # read_next_line removes the CR of the line terminator
-                if not sinks_ok:
-                    nbad += 1
-                    ctx.ob("C02.5", "%s|content-changing|%s" % (h.id, short(call_name(t2))), "no content-changing function is applied to head data that is stored in the Request", False, h.loc(b2))
-    ctx.ob("C02.5", "head-path|no-normalisation", "nothing on the path from the socket line to the stored Request fields decodes, case-maps, merges or reorders", nbad == 0, cc_read.file)
 
     # ---- C02.7 values containing colons: the line is split at the first colon only
     shared.header_split_rule(ctx, "C02.7")
@@ -246,17 +240,26 @@ def run(ctx):
             res[v] = symex.sym_str(st.read_key((0,)))
     ok = "TcpStream::peer_addr" in res.get("Tcp", "") and "Option::<std::net::SocketAddr>::Some" in res.get("Tcp", "") and "None" in res.get("Unix", "") and "Ok" in res.get("Unix", "")
     ctx.ob("C02.6", "%s|tcp-some-unix-none" % pa.id, "the peer address is Some(socket peer address) on TCP and None on UNIX sockets", ok, "%s:%d" % (pa.file, pa.line), str(res))
-    cc_new = roles.inherent(facts, CC, "new")
-    for g2, b2, kind, x in facts.field_writes(CC, "remote_addr"):
+    cc_ctor = sorted({g_.id for g_, b_, s_ in facts.constructions(CC)})
+    addr_f = [x["name"] for x in facts.adt(CC)["variants"][0]["fields"] if "SocketAddr" in x["ty"]]
+    ctx.require(len(addr_f) == 1, "C02.6: peer-address field of the connection")
+    for g2, b2, kind, x in facts.field_writes(CC, addr_f[0]):
         if kind == "construct":
             r = x["rhs"]
-            o = g2.origin(r["ops"][r["fields"].index("remote_addr")])
+            o = g2.origin(r["ops"][r["fields"].index(addr_f[0])])
             ok = origin_has_call(o, r"RefinedTcpStream::peer_addr$")
-            ctx.ob("C02.6", "%s|stores-peer-addr" % g2.id, "the connection remembers the socket's peer address", ok and g2.id == cc_new.id, g2.loc(b2), origin_str(o))
+            ctx.ob("C02.6", "%s|stores-peer-addr" % g2.id, "the connection remembers the socket's peer address", ok and g2.id in cc_ctor, g2.loc(b2), origin_str(o))
         elif kind != "drop":
             ctx.ob("C02.6", "remote_addr-write|%s" % g2.id, "the remembered address is never changed", False, g2.loc(b2))
-    o = f.origin(t["args"][5])
-    ctx.ob("C02.6", "%s|forwards-peer-addr" % f.id, "each request reports the connection's remembered peer address", "remote_addr" in origin_fields(o) and not origin_has_call(o, r"unwrap$|expect$"), f.loc(bb), origin_str(o))
+    if nrc:
+        tnr = rd.term(nrc[0])
+        ai = [i for i, x in enumerate(tnr.get("arg_tys") or []) if "SocketAddr" in x]
+        o = rd.origin(tnr["args"][ai[0]]) if ai else ("unknown",)
+        addr_f = [x["name"] for x in facts.adt(CC)["variants"][0]["fields"] if "SocketAddr" in x["ty"]]
+        sl = shared.backward_slice_locals(rd, [op_local(tnr["args"][ai[0]])]) if ai else set()
+        reads_field = any(addr_f and addr_f[0] in pl_fields(p_) for b2, i2, s2 in rd.assigns() if s2["lhs"]["l"] in sl for p_, kind in rvalue_places(s2["rhs"]))
+        panics = [short(call_name(t2)) for b2, t2 in rd.calls() if t2["dest"]["l"] in sl and call_matches(t2, r"(unwrap|expect)$") and not rd.blocks[b2].get("depth")]
+        ctx.ob("C02.6", "%s|forwards-peer-addr" % PM.read_def, "each request reports the connection's remembered peer address", bool(ai) and reads_field and not panics, rd.loc(nrc[0]), str(panics) if panics else None)
     for nm in ("RefinedTcpStream::peer_addr", "Stream::peer_addr"):
         pass
     return {}
